@@ -168,8 +168,30 @@ func (r *Recorder) Take() []Call {
 type RecContractor struct {
 	rhp4.Contractor
 	Rec *Recorder
+
+	gateMu sync.Mutex
+	gate   func()
 	// FailRevise, when set, makes the next persisting call fail (fault injection at the store).
 	FailNext bool
+}
+
+// GateNextLock makes the next LockV2Contract call run f before it reaches the contractor (the
+// harness blocks a handler right in front of the contract lock to order two concurrent RPCs).
+func (c *RecContractor) GateNextLock(f func()) {
+	c.gateMu.Lock()
+	c.gate = f
+	c.gateMu.Unlock()
+}
+
+func (c *RecContractor) LockV2Contract(id types.FileContractID) (rhp4.RevisionState, func(), error) {
+	c.gateMu.Lock()
+	g := c.gate
+	c.gate = nil
+	c.gateMu.Unlock()
+	if g != nil {
+		g()
+	}
+	return c.Contractor.LockV2Contract(id)
 }
 
 func (c *RecContractor) ReviseV2Contract(id types.FileContractID, rev types.V2FileContract, roots []types.Hash256, usage proto4.Usage) error {
@@ -309,6 +331,22 @@ func (fs *FundSigner) SignV2Inputs(txn *types.V2Transaction, toSign []int) {
 func (fs *FundSigner) SignHash(h types.Hash256) types.Signature { return fs.PK.SignHash(h) }
 func (fs *FundSigner) PublicKey() types.PublicKey               { return fs.PK.PublicKey() }
 func (fs *FundSigner) Address() types.Address                   { return fs.W.Address() }
+
+// HookSigner runs Hook once, right before it signs the renter's inputs: in form/renew/refresh that is
+// after the host's inputs have been received and before the renter's signatures are sent.
+type HookSigner struct {
+	*FundSigner
+	Hook func()
+	ran  bool
+}
+
+func (h *HookSigner) SignV2Inputs(txn *types.V2Transaction, toSign []int) {
+	if !h.ran && h.Hook != nil {
+		h.ran = true
+		h.Hook()
+	}
+	h.FundSigner.SignV2Inputs(txn, toSign)
+}
 
 // DefaultPrices are the prices of the host's own settings (the harnesses mostly sign their own
 // price tables with the host key).
